@@ -517,12 +517,16 @@ def xdh_one(env, st, s, theirs, ours, what):
     s32 = b32(s)
     valid = 1 <= s < C.n
     x32 = None
-    for party in (0, 1):
+    # the header defines party B as ANY non-zero value of the int flag: 0/1 with every hash choice, the other encodings of
+    # "B" (even values, negative values, INT_MIN, a value whose low byte is zero) with the coordinate-copying callback
+    for party in (0, 1, 2, -2, 256, 0x7FFFFFFE, -2**31):
         ell_a, ell_b = (theirs, ours) if party else (ours, theirs)
         if valid and x32 is None:
             x32 = W.xdh_x(s32, ell_a, ell_b, party, C)
         for name, fp, olen in (("bip324", env.xdh_bip324, 32), ("prefix", env.xdh_prefix, 32),
                                ("copy", env.xdh_copy, 160), ("cbfail", env.xdh_fail, 160)):
+            if party not in (0, 1) and name != "copy":
+                continue
             out = buf(b"\x5a" * olen)
             del env.log[:]
             ret = L.ellswift_xdh(L.ctx, out, exact(ell_a), exact(ell_b), exact(s32), party, fp, env.data)
